@@ -228,6 +228,15 @@ def with_lists(_):
   return n, bad[:2]
 
 
+def frame_at_limit(limit):
+  """A pickle frame of exactly PICKLE_RECEIVER_MAX_LENGTH bytes (the limit configured before the listener module is imported,
+  as the daemons do) is a valid frame: its datapoint and the frames around it are delivered."""
+  from . import c11
+  st, tr, ex, bad = c11.configured_limit_case(limit)
+  return [('frame-at-limit', what, dict(rep, kind='pickle-limit')) for key, what, rep in bad
+          if rep['case'].startswith('frame of exactly')]
+
+
 def sequences(ctx):
   L = ctx.pick(2, 3)
   seqs = []
@@ -249,6 +258,11 @@ def run(ctx):
   for key, what, rep in lbad:
     ctx.violation(key, what, rep)
   ctx.add(cases_with_lists_in_force=ln)
+  limits = [64, 4096, 2 ** 20]
+  for bad in core.pmap(frame_at_limit, limits, fresh=True):
+    for key, what, rep in bad:
+      ctx.violation(key, what, rep)
+  ctx.add(frames_of_exactly_the_configured_limit=len(limits))
   seqs = core.seeded_order(sequences(ctx), ctx.seed)
   nsh = 64 if not ctx.thorough else 256
   res = core.pmap(shard, [(seqs[i::nsh], 2) for i in range(nsh)], chunksize=1)
@@ -281,6 +295,10 @@ def replay(path):
     return listenh.replay(rep)
   if rep.get('lists'):
     n, bad = with_lists(0)
+    print('oracle:', bad[0][1] if bad else 'holds')
+    return 1 if bad else 0
+  if rep['kind'] == 'pickle-limit':
+    bad = frame_at_limit(rep['configured_limit'])
     print('oracle:', bad[0][1] if bad else 'holds')
     return 1 if bad else 0
   if rep['kind'] == 'udp':
